@@ -467,7 +467,7 @@ class Parser:
                             msg = "{} found while {} expected near '{}'".format(
                                 ttype,
                                 "|".join(self.__expected),
-                                text.decode()[self.lexer.pos],
+                                text[self.lexer.pos :].decode("utf-8", "replace")[:1],
                             )
                         else:
                             msg = "%s found while %s expected at end of file" % (
@@ -479,8 +479,8 @@ class Parser:
 
                 if not self.__command(ttype, tvalue):
                     msg = "unexpected token '%s' found near '%s'" % (
-                        tvalue.decode(),
-                        text.decode()[self.lexer.pos],
+                        tvalue.decode("utf-8", "replace"),
+                        text[self.lexer.pos :].decode("utf-8", "replace")[:1],
                     )
                     raise ParseError(msg)
             if self.__expected_brackets:
@@ -496,7 +496,7 @@ class Parser:
                     % self.__curcommand.name
                 )
 
-        except (ParseError, CommandError) as e:
+        except (ParseError, CommandError, UnicodeDecodeError) as e:
             self.error_pos = (
                 self.lexer.curlineno(),
                 self.lexer.curcolno(),
